@@ -1,0 +1,98 @@
+//go:build verif
+
+package kfake
+
+import "github.com/twmb/franz-go/pkg/kmsg"
+
+// Verification hooks (build tag "verif"): add-only accessors used by the
+// property checks under /verif. Nothing here is compiled without the tag.
+
+// VerifFS and VerifFile expose the persistence file-system interfaces so a
+// crash-simulating implementation can be injected.
+type (
+	VerifFS   = fs
+	VerifFile = file
+)
+
+// VerifWithFS injects a file system (use together with DataDir).
+func VerifWithFS(f VerifFS) Opt { return withFS(f) }
+
+// VerifACL is one ACL binding.
+type VerifACL struct {
+	Principal    string
+	Host         string
+	ResourceType kmsg.ACLResourceType
+	ResourceName string
+	Pattern      kmsg.ACLResourcePatternType
+	Operation    kmsg.ACLOperation
+	Permission   kmsg.ACLPermissionType
+}
+
+func verifACLs(in []VerifACL) *clusterACLs {
+	var a clusterACLs
+	for _, v := range in {
+		a.add(acl{v.Principal, v.Host, v.ResourceType, v.ResourceName, v.Pattern, v.Operation, v.Permission})
+	}
+	return &a
+}
+
+// VerifACLAllowed is the authorization decision for one resource.
+func VerifACLAllowed(acls []VerifACL, principal, host, resourceName string, resourceType kmsg.ACLResourceType, op kmsg.ACLOperation) bool {
+	return verifACLs(acls).allowed(principal, host, resourceName, resourceType, op)
+}
+
+// VerifACLAnyAllowed is the any-resource-of-type authorization decision.
+func VerifACLAnyAllowed(acls []VerifACL, principal, host string, resourceType kmsg.ACLResourceType, op kmsg.ACLOperation) bool {
+	return verifACLs(acls).anyAllowed(principal, host, resourceType, op)
+}
+
+// VerifAssignMember is one KIP-848 consumer group member for VerifAssign.
+type VerifAssignMember struct {
+	ID         string
+	InstanceID *string
+	Topics     []string
+	Prior      map[string][]int32 // prior target assignment by topic name
+}
+
+// VerifAssign runs the server-side assignor ("uniform" or "range") over the
+// given topics (name -> partition count) and members and returns each member's
+// target assignment by topic name.
+func VerifAssign(assignor string, topics map[string]int32, members []VerifAssignMember) map[string]map[string][]int32 {
+	snap := make(topicMetaSnap)
+	ids := make(map[string]uuid)
+	names := make(map[uuid]string)
+	var n byte
+	for t, p := range topics {
+		n++
+		var id uuid
+		id[0], id[15] = n, 1
+		copy(id[1:], t)
+		ids[t], names[id] = id, t
+		snap[t] = topicSnapInfo{id: id, partitions: p}
+	}
+	g := &group{assignorName: assignor, consumerMembers: make(map[string]*consumerMember)}
+	for _, m := range members {
+		cm := &consumerMember{memberID: m.ID, instanceID: m.InstanceID, subscribedTopics: m.Topics, targetAssignment: make(map[uuid][]int32)}
+		for t, ps := range m.Prior {
+			id, ok := ids[t]
+			if !ok { // a prior assignment for a topic that no longer exists
+				n++
+				id[0], id[15] = n, 2
+				copy(id[1:], t)
+				ids[t], names[id] = id, t
+			}
+			cm.targetAssignment[id] = append([]int32(nil), ps...)
+		}
+		g.consumerMembers[m.ID] = cm
+	}
+	g.computeTargetAssignment(snap)
+	out := make(map[string]map[string][]int32)
+	for id, m := range g.consumerMembers {
+		o := make(map[string][]int32)
+		for tid, ps := range m.targetAssignment {
+			o[names[tid]] = append([]int32(nil), ps...)
+		}
+		out[id] = o
+	}
+	return out
+}
